@@ -71,24 +71,26 @@ CHECKS = {
 
 # sentences appended to the level text of a check (what later rounds added)
 EXTRA = {
- "C01": "Growth-size frames come valid, as garbage bytes, and as undecodable but valid UTF-8 made of three-byte characters at each of the three alignments (unbalanced JSON / a JSON array). One frame of 4 KiB .. 300 KB / 1 MiB around powers of two. An end-of-stream report for a frame that does not decode is a violation.",
- "C02": "A phase with the production limit (child process of the main build) hands 4 KiB .. 1 MiB to the transport in one flush - one below, at, one above every power of two - built from one large message, hundreds of small ones and mixtures. Phase raw-wire (child process `sockets c02-child`): real socket pairs with the zlink-tokio / zlink-smol transports, one send abandoned at its 1st / 2nd / 4th pending poll, further sends and a final flush; the raw bytes a std reader gets must be every message once, in order, each followed by one NUL.",
- "C04": "Which errors a type recognises is decided from the reply's JSON value alone (declared name + exactly the variant's fields), not with the library's decoders; every base frame is also extended by a single unknown member. The product also goes through generated proxy methods (one per parameter type x error type).",
- "C06": "A sweep of large chains (16 KiB .. 200 KB, thorough 3 MB, built in three ways, kinds rotating) checks the one-write clause far beyond the buffer's growth step. A phase builds chains with the chain_<m> / extension methods the proxy macro generates (plain / more methods with and without arguments).",
- "C07": "The same guarantee over the transports zlink ships: a child process (`sockets c07-child`) runs real socket pairs with zlink-tokio and zlink-smol where the schedule may drop the pending receive future at any of its first 8..14 steps.",
- "C09": "Undecodable frames also come long and non-ASCII: ~700 bytes of three-byte characters at each alignment (unbalanced JSON, unknown method, wrong-typed parameters) and a call whose string holds bytes that are not UTF-8. A call with a 70-character unknown member spelled with a JSON escape in front of an unknown method is one more undecodable frame.",
- "C10": "A child process (`sockets c10-child`) runs a service whose reply streams are the library's own notified::State / notified::Once (zlink-tokio and zlink-smol) behind the real Server::run: bursts of up to 12 state changes while clients are subscribed, one-shot streams with a call pipelined behind them.",
- "C11": "The peer pads every reply with 0, 1 or 3 extra NUL bytes; the listed finding is keyed to a read that follows a rewind of the connection's cursors, any other overwrite is reported. The peer may hang up after its first reply or inside its second one; the freed-by-growth finding only covers a buffer that a read attempt found full.",
+ "C01": "Growth-size frames come valid, as garbage bytes, and as undecodable but valid UTF-8 made of three-byte characters at each of the three alignments (unbalanced JSON / a JSON array). One frame of 4 KiB .. 300 KB / 1 MiB around powers of two. An end-of-stream report for a frame that does not decode is a violation. An empty frame (a bare NUL) may stand among the frames: it may be skipped or answered with an error, the frames around it must be unaffected.",
+ "C02": "A phase with the production limit (child process of the main build) hands 4 KiB .. 1 MiB to the transport in one flush - one below, at, one above every power of two - built from one large message, hundreds of small ones and mixtures. Phase raw-wire (child process `sockets c02-child`): real socket pairs with the zlink-tokio / zlink-smol transports, one send abandoned at its 1st / 2nd / 4th pending poll, further sends and a final flush; the raw bytes a std reader gets must be every message once, in order, each followed by one NUL. Phase empty-shapes: payloads whose encoding has nothing between its brackets. The raw-wire phase also sends each message as a chain of its own.",
+ "C04": "Which errors a type recognises is decided from the reply's JSON value alone (declared name + exactly the variant's fields), not with the library's decoders; every base frame is also extended by a single unknown member. The product also goes through generated proxy methods (one per parameter type x error type). The error types have a variant whose wire name is a rename (the declared name must be recognised, the Rust spelling must not).",
+ "C06": "A sweep of large chains (16 KiB .. 200 KB, thorough 3 MB, built in three ways, kinds rotating) checks the one-write clause far beyond the buffer's growth step. A phase builds chains with the chain_<m> / extension methods the proxy macro generates (plain / more methods with and without arguments). A phase with peers that pad their replies with extra NUL bytes.",
+ "C07": "The same guarantee over the transports zlink ships: a child process (`sockets c07-child`) runs real socket pairs with zlink-tokio and zlink-smol where the schedule may drop the pending receive future at any of its first 8..14 steps. An empty frame (a bare NUL) may stand among the frames.",
+ "C09": "Undecodable frames also come long and non-ASCII: ~700 bytes of three-byte characters at each alignment (unbalanced JSON, unknown method, wrong-typed parameters) and a call whose string holds bytes that are not UTF-8. A call with a 70-character unknown member spelled with a JSON escape in front of an unknown method is one more undecodable frame. A child process (`sockets c09-child`) runs a service built on notified::State (zlink-tokio and zlink-smol) behind the real Server::run with clients that hang up, also while subscribed.",
+ "C10": "A child process (`sockets c10-child`) runs a service whose reply streams are the library's own notified::State / notified::Once (zlink-tokio and zlink-smol) behind the real Server::run: bursts of up to 12 state changes while clients are subscribed, one-shot streams with a call pipelined behind them. In the notified-state phases clients may also hang up while subscribed.",
+ "C11": "The peer pads every reply with 0, 1 or 3 extra NUL bytes; the listed finding is keyed to a read that follows a rewind of the connection's cursors, any other overwrite is reported. The peer may hang up after its first reply or inside its second one; the freed-by-growth finding only covers a buffer that a read attempt found full. The caller may drop the stream after the first item while replies are still owed and go on reading what it was given.",
  "C12": "Arguments spelled as raw identifiers (r#type ...) are part of the corpus. Option arguments are also written with a path (std::option::Option, ::std::option::Option, ::core::option::Option, core::option::Option).",
  "C13": "Comment-texts phases put each of seven comment texts (incl. texts that look like IDL: brackets before / after a colon, a colon or bracket alone, keywords) on every commentable position. Comment texts that start with `#`; long member lists (12 variants / 9 fields with long names).",
- "C14": "Comment-texts phases put each of seven comment texts (incl. texts that look like IDL) on every commentable position, also through the GetInterfaceDescription exchange. Comment texts that start with `#`; long member lists; the commented-variant finding covers a description only if putting the missing commas in is all it takes.",
- "C15": "Interface org.edge.nested has custom types that refer to other custom types: a leaf per value kind, a wrapper per way of referring (plain, ?, [], [string]), two more levels on top, used as inputs, outputs and error fields. Field names include method / parameters / call / reply / conn / params.",
+ "C14": "Comment-texts phases put each of seven comment texts (incl. texts that look like IDL) on every commentable position, also through the GetInterfaceDescription exchange. Comment texts that start with `#`; long member lists; the commented-variant finding covers a description only if putting the missing commas in is all it takes. Phase exchange/description-sizes: the exchange for a fixed interface with a comment of every length 0..700 (thorough 1500) on the interface / its first / its last member.",
+ "C15": "Interface org.edge.nested has custom types that refer to other custom types: a leaf per value kind, a wrapper per way of referring (plain, ?, [], [string]), two more levels on top, used as inputs, outputs and error fields. Field names include method / parameters / call / reply / conn / params. Three interfaces with comments are also generated into ONE module (verbatim, as a file of its own); inner doc comments are only left out at the very top of a generated text.",
  "C18": "A sizes phase has waiting calls of 350 bytes and 5 KB (the receive buffer has to grow while the flood goes on) and flooders with calls of mixed sizes. A child process (`sockets c18-child`) checks the first clause over the listeners and transports of zlink-tokio and zlink-smol: 2..3 std clients whose bursts are all in their sockets before the server looks.",
- "C19": "Listeners: {bound, inherited descriptor in blocking mode, inherited descriptor in non-blocking mode} x 1..3 clients x for each client whether accept is polled before the client connects (must come back pending, then complete) or after, traffic both ways on every accepted connection.",
- "C03": "A child process (`sockets c03-child`) compares the raw bytes a std reader takes off a real socket pair behind the zlink-tokio / zlink-smol transports (messages of 300 B .. 150 KB with characters that need escaping, four reader speeds, smallest / default socket buffers) with serde_json's encodings + NULs.",
- "C05": "Every error frame is also received over a connection (receive_reply with a success type of other required fields, and with ()). Unknown call members also have 70-character names, plain and spelled with an escape.",
+ "C19": "Listeners: {bound, inherited descriptor in blocking mode, inherited descriptor in non-blocking mode} x 1..3 clients x for each client whether accept is polled before the client connects (must come back pending, then complete) or after, traffic both ways on every accepted connection. Sends (send_call, or each message as a chain of its own) abandoned at their 1st / 2nd / 4th pending poll with more messages and a final flush following: the raw bytes a std reader gets must be every message once, in order.",
+ "C03": "A child process (`sockets c03-child`) compares the raw bytes a std reader takes off a real socket pair behind the zlink-tokio / zlink-smol transports (messages of 300 B .. 150 KB with characters that need escaping, four reader speeds, smallest / default socket buffers) with serde_json's encodings + NULs. Values written through Serializer::collect_str (a Display producing 1..3 pieces of 0..300 bytes) into every buffer length and from eight fill levels.",
+ "C05": "Every error frame is also received over a connection (receive_reply with a success type of other required fields, and with ()). Unknown call members also have 70-character names, plain and spelled with an escape. Reply parameters of eight types, among them zero-sized ones (field-less struct, one-variant enum, PhantomData / empty array) and empty values.",
  "C08": "A child process (`sockets c08-child`) runs the server over the listeners and transports of zlink-tokio and zlink-smol with std clients that stay, half-close or close (right after writing / once the server is idle; server first run before the connects / before the writes / after everything). Calls of 5 KB and calls with a 70-character escaped unknown member are part of the alphabets.",
- "C16": "Long member lists (14 variants, 10 fields); the commented-variant finding covers an interface only if putting the missing commas in is all it takes.",
+ "C16": "Long member lists (14 variants, 10 fields); the commented-variant finding covers an interface only if putting the missing commas in is all it takes. `Type`-derived inline structs with documented fields are used nested in assembled interfaces (parameter, ?, [], [string], error field).",
+ "C17": "A sweep sends messages whose last value is a float / integer / literal / empty container at every length around the limit.",
+ "C20": "The notified types are also run behind Server::run (scripted listener) with up to 3 clients that subscribe, set the state and hang up.",
 }
 
 NOT_YET = {
